@@ -13,6 +13,7 @@ from . import common
 PROP = "C02"
 KQ = ("CE", "CO", "CO0", "CEG", "PPO")
 KT = KQ + ('PGO', 'CEE')
+FX = ("CDG",)  # operators applied on the rule-focused slice only
 
 _WS = re.compile(r"\s+")
 _WSRUN = re.compile(r"[ \t]+")
@@ -225,7 +226,7 @@ def main(tier):
 
     rl = rule_list.rule_list(vhdlFile.vhdlFile([""]), None)
     k1r = {r.unique_id for r in rl.rules if not r.deprecated and (r.name == "comment" or any(c.__name__ in LINE_RULE_BASES for c in type(r).__mro__))}
-    its = common.pipe_items(tier, KQ, KT, k1=True, k1_rules=k1r)
+    its = common.pipe_items(tier, KQ, KT, focus_extra=FX, k1=True, k1_rules=k1r)
     m = explore.run(its, execute, horizon=90.0, label=PROP)
     return report.finish(
         PROP, tier, "model_checking", [m], t0,
@@ -235,7 +236,7 @@ def main(tier):
         ["allow-list = rules derived from remove_comments_from_end_of_lines_bounded_by_tokens, and from multiline_structure while assign_on_single_line is 'yes'",
          "normalisation = whitespace directly after the comment leader and tab/space runs inside the comment"],
         extra_cov={"comments_tracked": m.extra.get("comments_tracked", 0), "allowed_removals_seen": m.extra.get("allowed_removals", 0), "k1_rules": len(k1r),
-                   "bound": common.bound_text(tier, KQ, KT)},
+                   "bound": common.bound_text(tier, KQ, KT, FX)},
         reproduce=reproduce,
         technique="explicit-state exploration of the fix pipeline over all single comment placements; per-transition comment-sequence invariant",
     )
